@@ -42,6 +42,8 @@ def gen(rs: int, tier: str, index: int) -> dict:
         expr = " ".join(f)
     off = gen_offset(r)
     c = r.randint(0, 4)
+    if off is not None and "zone" in off and r.random() < 0.5:
+        c = 0
     if c == 0 and off is not None and "zone" in off:
         days = dst_transition_days(off["zone"], r.randint(2015, 2035))
         day = r.choice(days) if days else datetime(2024, 3, 10, tzinfo=UTC)
@@ -57,7 +59,8 @@ def gen(rs: int, tier: str, index: int) -> dict:
         instants.append(base + m * 60_000_000 + r.choice([0, 0, 1, 59_999_999, r.randint(0, 59_999_999)]))
     for _ in range(200):
         instants.append(to_us(datetime(2015, 1, 1, tzinfo=UTC)) + r.randint(0, 21 * 365 * 86400) * 1_000_000 + r.randint(0, 999_999))
-    return {"world": "sched", "mode": "sweep", "run_seed": rs, "expr": expr, "offset": off, "instants": instants}
+    return {"world": "sched", "mode": "sweep", "run_seed": rs, "expr": expr, "offset": off, "instants": instants,
+            "tz": r.choice(["UTC", "UTC", "Etc/GMT-3", "Etc/GMT+7", "Asia/Kathmandu"])}
 
 
 def simulate(script: dict) -> Any:
@@ -77,7 +80,7 @@ def simulate(script: dict) -> Any:
         res = []
         for pos in (us, minute, minute + 59_999_999):
             try:
-                res.append(call_get_task_delay(task, pos))
+                res.append(call_get_task_delay(task, pos, script.get("tz", "UTC")))
             except Exception as exc:  # noqa: BLE001
                 res.append("raise:" + type(exc).__name__)
         ev.append([len(ev), 0, us, "delay", {"res": res}])
